@@ -282,6 +282,16 @@ pub fn run_fq2(a: &Args, out: &mut Out) {
     while !out.full() {
         k += 1;
         let (mut x, mut y) = (fq2_of(&comp(&mut rng), &comp(&mut rng)), fq2_of(&comp(&mut rng), &comp(&mut rng)));
+        if rng.gen_range(0..8) == 0 {
+            // components in a small linear RELATION (a factor of the complex-squaring / Karatsuba formulas vanishes):
+            // a0 = 2 a1 (a0 - 2 a1 = 0), a0 = -a1 (a0 + a1 = 0), a0 = a1, a0 = -2 a1, a1 = 2 a0, a1 = -2 a0
+            let rel = |rng: &mut rand::rngs::StdRng, a: Fq| -> Fq2 {
+                let two = a + a;
+                match rng.gen_range(0..6) { 0 => Fq2::new(two, a), 1 => Fq2::new(-a, a), 2 => Fq2::new(a, a), 3 => Fq2::new(-two, a), 4 => Fq2::new(a, two), _ => Fq2::new(a, -two) }
+            };
+            x = rel(&mut rng, x.imaginary());
+            if rng.gen() { y = rel(&mut rng, y.real()); }
+        }
         if k % 9 >= 4 && k % 3 == 0 && !pool.hi.is_empty() {
             // carry classes of the interleaved sum of products: every Montgomery residue entering one coefficient just below q
             // (imaginary part: a0, a1, b0, b1 high; real part: a0, b0, b1 high and a1 small so that -2*a1 is high)
